@@ -28,8 +28,8 @@ def reg(pid, units, explanation, assumptions=(), level_text='', level_note='', t
 
 NOT_BUILT = 'unit not built yet in this session (see DESIGN.md work plan)'
 NOT_APPLICABLE = {
-    'C01': NOT_BUILT, 'C02': NOT_BUILT, 'C04': NOT_BUILT, 'C07': NOT_BUILT, 'C08': NOT_BUILT, 'C09': NOT_BUILT,
-    'C10': NOT_BUILT, 'C11': NOT_BUILT, 'C12': NOT_BUILT, 'C13': NOT_BUILT, 'C15': NOT_BUILT, 'C17': NOT_BUILT,
+    'C02': NOT_BUILT, 'C08': NOT_BUILT, 
+    'C13': NOT_BUILT, 'C15': NOT_BUILT, 'C17': NOT_BUILT,
     'C03': 'partition refinement is written as closure chains over BTreeMap<StateID, BTreeMap<CharClassID, Vec<StateID>>>; Verus cannot ingest it without a rewrite that would be a model, and the Kani stand-in did not terminate at 3 states x 2 classes (25 min, 5.7 GB)',
     'C14': 'concurrency: Kani has no thread support and Verus would need its own permission types in place of RwLock/LazyLock/Arc (a rewrite, i.e. a model)',
     'C16': 'behaviour lives in the expansion of serde derives and in serde_json; there is no function of scnr to put a contract on',
@@ -40,8 +40,34 @@ NOT_APPLICABLE = {
 WF = 'wf(compiled automaton): state/end_state vectors same non-zero length, transition targets in range, accepting token types listed in terminal_ids, lookahead automata well-formed and lookahead-free (producer side = build layer, not proved)'
 CLS = 'the class predicate closure is a total deterministic function of (class id, char) (cls_functional)'
 
+ITER = 'fm_inv(iterator): cursor on a char boundary of the input, line_offsets sorted true line starts beginning with 0, last_char consistent with the char before the cursor (established by FindMatchesImpl::new, preserved by every method; proved)'
+UTF8 = 'UTF-8 bridge axioms (units/common/str_prelude.rs): byte offsets of char prefixes are char boundaries, byte length = sum of encoded lengths, slicing at such an offset splits the char sequence there'
+C02DEP = 'that the compiled automaton recognises exactly the pattern languages is property C02 (not decided here): every statement is relative to the compiled automaton'
+
+reg('C01', ['u_dfa', 'u_mode', 'u_iter'],
+    'find_from ensures find_post (longest accepted non-empty prefix; ties -> first in terminal_ids) for every wf automaton, class predicate and input; ScannerImpl::find_from/peek_from the same for the active mode; next_match ensures is_next_tok: the token is the find_post outcome at the first char index >= cursor that has any candidate, skipped positions have none, spans absolute (add_offset), cursor moves to the token end; None only if no position has a candidate',
+    [WF, CLS, ITER, UTF8, C02DEP, 'add_patterns (token type = pattern index) is not under contract: Vec<Pattern> construction through iterator adapters'],
+    technique='Verus function contracts (requires/ensures/loop invariants) on code extracted from /repo each run')
+reg('C04', ['u_dfa', 'u_mode', 'u_iter'],
+    'a reported token is a cand: accepted by its pattern automaton AND la_ok(tid, rest at token end) (positive: some non-empty prefix of the rest matched by the lookahead automaton; negative: none; empty rest => positive fails); span end = start + own bytes (lookahead never inside); converse: find_post forbids None while a candidate exists; call sites next_match/peek_n establish that the haystack slice and the iterator indices refer to the same text for every offset (ci_at precondition of find_from)',
+    [WF, CLS, ITER, UTF8, C02DEP])
 reg('C05', ['u_dfa'], 'find_post: the reported (length, token type) is one candidate with satisfied lookahead that is no_better-maximal in extent = own bytes + longest positive-lookahead match, ties by first position in terminal_ids; all unwrap/index/overflow obligations of find_from, priority_of, satisfies_lookahead', [WF, CLS])
 
 reg('C06', ['u_mode'], 'mode after every operation is the function of (old mode, token type, transition list) the property states: has_transition == lookup in the sorted list; find_from switches, peek_from/has_transition/current_mode do not, set_mode sets, reset gives 0', [WF, 'set_mode(m) is called with m < number of modes (documented precondition)'])
 
-reg('C10', ['u_iter'], 'WORK IN PROGRESS', [WF])
+reg('C10', ['u_iter'],
+    'set_offset/with_offset(o): o on a char boundary or beyond the input => cursor at min(o, len) on that boundary, offset field clamped, mode/scanner/line_offsets unchanged, nothing else of the old cursor survives (fm_inv re-established from the arguments only); advance_to(p) with p the end of a peeked match lands exactly on p, absolute (lemma_adv_target_boundary); next_match/peek_n contracts are functions of the abstract state only',
+    [ITER, UTF8, WF])
+
+reg('C07', ['u_dfa', 'u_mode', 'u_iter'],
+    'spans non-empty (l >= 1), start/end are byte offsets of char indices of the input (boff), start >= previous end (cursor monotone), Some(m) => cursor strictly advances, None => cursor at end and stays there (no_more); absence of panics while scanning = every index/unwrap/overflow/slice-boundary obligation of the functions under contract',
+    [WF, CLS, ITER, UTF8, 'building (establishing wf, not panicking) is NOT decided: producer side is C02/C03 territory'])
+reg('C09', ['u_iter'],
+    'position(o): line = 1 + number of line breaks before o and column = o - line start + 1 whenever all line starts up to o are recorded (complete_upto), or the permitted same-line alternative right after a line break; next_match/advance_to record every line start of the consumed region; set_offset recomputes last_char; merge keeps line_offsets sorted, duplicate free, true line starts',
+    [ITER, UTF8, 'WithPositions::next itself (generic over the inner iterator) is not under contract; its two calls are position(m.start()) and position(m.end()) after next()'])
+reg('C11', ['u_mode', 'u_iter'],
+    'peek_n: final state equals old state on every field that determines later results (char_indices, offset, line_offsets, last_char, last_position, mode; scanner config same up to scratch buffers); outcome classified exactly: Matches <=> n tokens none switching; MatchesReachedModeSwitch <=> last token has a transition to the reported mode (not entered); MatchesReachedEnd <=> 0 < k < n tokens then no_more; NotFound <=> no token at all; the tokens are toks_from = the same is_next_tok chain next() is specified by',
+    [WF, CLS, ITER, UTF8])
+reg('C12', ['u_dfa', 'u_mode', 'u_iter'],
+    'every operation contract gives result and new state as a function of (old abstract state, arguments, immutable configuration): scratch buffers are not part of DfaCore and find_from clears them (its postcondition does not mention their old value); FindMatchesImpl::new yields (input, cursor 0, mode 0) for any scanner value, whatever mode it was in',
+    [WF, CLS, ITER, 'Scanner::find_iter hands a clone to the iterator: derived Clone copies (E4 assumption); two iterators share only Arc<..> data that is immutable through & (Rust aliasing rules, type-level argument)'])
